@@ -379,6 +379,7 @@ type Flow struct {
 	local   map[ssa.Value]bool
 	overlay map[ssa.Value]*Abs
 	ownRet  []*Abs                      // a context's own return values
+	ctxSite ssa.CallInstruction         // the call site this context stands for
 	polyOf  map[ssa.Value]*ssa.Function // value -> the polyvariant helper defining it
 	// NoTaintCallee: external callees whose results never carry their arguments' text
 	NoTaint map[string]bool
@@ -589,7 +590,7 @@ func (f *Flow) stepPoly(fn *ssa.Function) {
 		cx := f.ctxs[cs]
 		if cx == nil {
 			cx = &Flow{p: f.p, funcs: f.funcs, Val: f.Val, Cell: f.Cell, Ret: f.Ret, Source: f.Source, NoTaint: f.NoTaint,
-				poly: f.poly, ctxs: map[ssa.CallInstruction]*Flow{}, polyOf: f.polyOf, parent: f, local: map[ssa.Value]bool{}, overlay: map[ssa.Value]*Abs{}}
+				poly: f.poly, ctxs: map[ssa.CallInstruction]*Flow{}, polyOf: f.polyOf, parent: f, local: map[ssa.Value]bool{}, overlay: map[ssa.Value]*Abs{}, ctxSite: cs}
 			for _, b := range fn.Blocks {
 				for _, in := range b.Instrs {
 					if v, ok := in.(ssa.Value); ok {
@@ -991,6 +992,19 @@ func (f *Flow) call(fn *ssa.Function, b *ssa.BasicBlock, site ssa.CallInstructio
 		return
 	}
 	edges := f.p.Callees(site)
+	if pr, ok := cc.Value.(*ssa.Parameter); ok && f.ctxSite != nil && pr.Parent() == fn {
+		// a function-typed parameter called inside a per-call-site context: the callee is what this site passed
+		for i, q := range fn.Params {
+			if q == pr && i < len(f.ctxSite.Common().Args) {
+				if ts := f.p.dynamicTargets(f.ctxSite.Common().Args[i], f.ctxSite.Parent(), 0); len(ts) > 0 {
+					edges = edges[:0]
+					for _, t := range ts {
+						edges = append(edges, Edge{site, EdgeCall, t, ""})
+					}
+				}
+			}
+		}
+	}
 	acc := bot()
 	external := false
 	for _, e := range edges {
@@ -1294,7 +1308,13 @@ func cutAt(a *Abs, src ssa.Value, seps bset) *Abs {
 // WithParams re-evaluates fn with its parameters bound to args only (one
 // calling context), everything else taken from the global fixpoint.
 func (f *Flow) WithParams(fn *ssa.Function, args []*Abs) *Flow {
-	sub := &Flow{p: f.p, funcs: []*ssa.Function{fn}, Val: map[ssa.Value]*Abs{}, Cell: map[interface{}]*Abs{}, Ret: map[*ssa.Function][]*Abs{}, Source: f.Source, NoTaint: f.NoTaint, frozen: map[ssa.Value]bool{},
+	return f.WithParamsAt(fn, args, nil)
+}
+
+// WithParamsAt is WithParams for the context of one call site: function-typed
+// parameters called inside fn resolve to what that site passed.
+func (f *Flow) WithParamsAt(fn *ssa.Function, args []*Abs, site ssa.CallInstruction) *Flow {
+	sub := &Flow{ctxSite: site, p: f.p, funcs: []*ssa.Function{fn}, Val: map[ssa.Value]*Abs{}, Cell: map[interface{}]*Abs{}, Ret: map[*ssa.Function][]*Abs{}, Source: f.Source, NoTaint: f.NoTaint, frozen: map[ssa.Value]bool{},
 		poly: map[*ssa.Function]bool{}, ctxs: map[ssa.CallInstruction]*Flow{}, polyOf: map[ssa.Value]*ssa.Function{}}
 	local := map[ssa.Value]bool{}
 	for _, fx := range AnonClosure(fn) {
